@@ -191,7 +191,24 @@ pub fn gen_batch_case(check: &str, seed: u64, family: &str, tier: Tier, with_fil
         batches,
         simcfg,
         recorded: None,
-        params: if two_callers { json!({"two_callers": true}) } else { Value::Null },
+        params: {
+            // the language-binding interface (built from a TOML text, queries and responses as JSON strings) in one
+            // case of seven - a stream of its own, the other knobs stay as they were
+            let via_bindings = Rng::new(seed ^ fnv64("bindings")).chance(0.15);
+            match (two_callers, via_bindings) {
+                (false, false) => Value::Null,
+                (t, b) => {
+                    let mut m = serde_json::Map::new();
+                    if t {
+                        m.insert("two_callers".into(), json!(true));
+                    }
+                    if b {
+                        m.insert("via_bindings".into(), json!(true));
+                    }
+                    Value::Object(m)
+                }
+            }
+        },
     }
 }
 
@@ -219,6 +236,9 @@ pub fn judge(case: &Case, obs: &Obs) -> (Vec<Violation>, BTreeMap<String, u64>, 
     let mut v: Vec<Violation> = vec![];
     let mut reach: BTreeMap<String, u64> = BTreeMap::new();
     let mut bump = |k: &str, n: u64| *reach.entry(k.to_string()).or_insert(0) += n;
+    if case.params.get("via_bindings").and_then(|x| x.as_bool()).unwrap_or(false) && case.params.get("cli").map_or(true, |c| !c.is_object()) {
+        bump("cases_through_the_binding_interface", 1);
+    }
     let mut nontrivial = false;
     if let Some(e) = &obs.build_error {
         v.push(Violation { class: "build-failed".into(), detail: format!("explored application failed to build on a valid world: {}", e) });
